@@ -531,7 +531,9 @@ func ZZ_C15_assertion_replay() {
 	now := time.Now()
 	jti := zz.String("jti", 4)
 	zz.Assume(jti != "")
-	life := zz.Int("life", 1, 3600)
+	// client assertions have no lifetime cap: up to two days, i.e. also beyond the 24 h that the configuration
+	// (GetJWTMaxDuration) allows JWT-bearer grants
+	life := zz.Int("life", 1, 2*24*3600)
 	sp := concrete(w, now, "c1", w.keys["A"], zzjwt.NaturalAlg(kindA), jti, life)
 	tok := sp.token()
 	if zz.Choice("loserace", 2) == 1 {
